@@ -384,7 +384,32 @@ def rule_r8(p, res):
         raise AnalysisError("C10.R8: only %d model methods analysed (floor 40)" % m)
 
 
-RULES = [rule_r1, rule_r2, rule_r3, rule_r4, rule_r5, rule_r6, rule_r7, rule_r8]
+def rule_r9(p, res):
+    r = res.rule("C10.R9", "in-place block products visit every column; max_n_components discards (not merely deactivates) the surplus components")
+    for name in ("dot_inplace_left", "dot_inplace_right"):
+        f = p.func("menpo.math.linalg." + name)
+        r.instance(f)
+        loops = [n for n in walk_own(f.node) if isinstance(n, ast.For) and isinstance(n.iter, ast.Call) and norm(n.iter.func) == "range"]
+        need(loops, "C10.R9: block loop of %s not found" % name)
+        for lp in loops:
+            a = lp.iter.args
+            r.check(len(a) == 3 and norm(a[0]) == "0" and isinstance(a[1], ast.Name) and norm(a[2]) == f.params[2], f, lp,
+                    "%s: the block loop must run over range(0, <big dimension>, block_size) (found `%s`): any other stop leaves a trailing block of the result unwritten" % (name, norm(lp.iter)))
+    h = p.own_method("PCAVectorModel", "_constructor_helper")
+    r.instance(h)
+    g = cfgmod.build(h.node)
+    mx = h.params[-1]
+    ks = [k for k in calls_in(h.node) if isinstance(k.func, ast.Attribute) and k.func.attr == "trim_components"]
+    ok = False
+    for k in ks:
+        gs = [(norm(t), pol) for t, pol in g.guards(stmt_of(k))]
+        if norm(k.args[0]) == mx and gs in ([("%s is not None" % mx, True)], [("%s is None" % mx, False)]):
+            ok = True
+    r.check(ok, h, h.node, "a model built with max_n_components must trim_components(max_n_components): merely lowering the active count keeps the surplus components stored, "
+            "n_components and the retained/noise variance bookkeeping then differ from a model trimmed to that size")
+
+
+RULES = [rule_r1, rule_r2, rule_r3, rule_r4, rule_r5, rule_r6, rule_r7, rule_r8, rule_r9]
 
 WITNESSES = [
     Witness("C10.W1", "menpo/model/linear.py", "LinearVectorModel.project_vectors", "np.dot(vectors, self.components.T)", "np.dot(vectors, self.components)", rule="C10.R6", construct="project_vectors"),
@@ -410,4 +435,10 @@ WITNESSES += [
 
 WITNESSES += [
     Witness("C10.W13", "menpo/model/pca.py", "PCAVectorModel.eigenvalues_ratio", "self.eigenvalues / self.original_variance()", "self.eigenvalues / self._total_variance()", rule="C10.R8", construct="eigenvalues_ratio", note="seeded change R4-C10-A"),
+]
+
+WITNESSES += [
+    Witness("C10.W14", "menpo/math/linalg.py", "dot_inplace_right", "range(0, n_big, block_size)", "range(0, n_big - 1, block_size)", rule="C10.R9", construct="dot_inplace_right", note="seeded change R5-C10-A"),
+    Witness("C10.W15", "menpo/model/pca.py", "PCAVectorModel._constructor_helper", "self.trim_components(max_n_components)", "self.n_active_components = max_n_components", rule="C10.R9", construct="_constructor_helper",
+            note="seeded change R5-C10-B"),
 ]
